@@ -171,8 +171,10 @@ def new_lengths(size):
     return out
 
 
-def mk(cfg, target, length, fp_len=None, mode='r+b'):
-    return {'cfg': cfg, 'target': target, 'length': length, 'fp_len': length if fp_len is None else fp_len, 'mode': mode}
+def mk(cfg, target, length, fp_len=None, mode='r+b', pre=()):
+    """pre: lengths of earlier modify_file_in_place calls on the same target in the same session (not logged)"""
+    return {'cfg': cfg, 'target': target, 'length': length, 'fp_len': length if fp_len is None else fp_len, 'mode': mode,
+            'pre': tuple(pre)}
 
 
 def boundary_cases():
@@ -207,6 +209,10 @@ def boundary_cases():
     # an fp that holds more / fewer bytes than `length`
     for fp_len in (6000, 4200, 3000, 2048, 100, 0):
         cs.append(mk(full + (5000, 'idju'), 'T', 4200, fp_len=fp_len))
+    # a second / third call in the same session: the state is the object graph the first call left behind
+    for pre, ln in (((4200,), 5000), ((4097, 6144), 4100), ((5000,), 5000), ((6144,), 8000)):
+        cs.append(mk(full + (5000, 'idju'), 'T', ln, pre=pre))
+        cs.append(mk(plain + (5000, 'i'), 'LINK', ln, pre=pre))
     cs.append(mk(plain + (0, ''), 'T', -5))
     cs.append(mk(plain + (0, ''), 'T', -2048))
     cs.append(mk(plain + (0, 'i'), 'T', -2049))
@@ -243,7 +249,11 @@ def random_case(rng):
     if rng.random() < 0.1:
         fp_len = max(0, ln + rng.choice([-1, 1, -2048, 2048, -ln]))
     mode = 'r+b' if rng.random() < 0.9 else rng.choice(['rb', 'bytesio'])
-    return mk(cfg, tgt, ln, fp_len=fp_len, mode=mode)
+    pre = ()
+    if mode != 'rb' and rng.random() < 0.15:
+        n = -(-size // LBS)
+        pre = tuple(rng.randint((n - 1) * LBS + 1, n * LBS) if n else 0 for _ in range(rng.choice([1, 2])))
+    return mk(cfg, tgt, ln, fp_len=fp_len, mode=mode, pre=pre)
 
 
 def cases(seed, n):
@@ -380,6 +390,12 @@ def run(case):
     iso = pycdlib.PyCdlib()
     iso.open_fp(fp)
     path = target_path(case)
+    for k, ln in enumerate(case.get('pre', ())):
+        _pin(CLOCK1 + 3600 * (k + 1))
+        iso.modify_file_in_place(io.BytesIO(content(ln, 150 + k)), ln, path)
+    if case.get('pre'):
+        raw.flush()
+        before = raw.getvalue() if case['mode'] == 'bytesio' else open(scratch, 'rb').read()
     # ---- the model's state, from the object graph
     st = {}
     mode = getattr(fp, 'mode', None)
